@@ -78,7 +78,16 @@ ReadBackProblems(ev, b) ==
                       "eval(probe expression) disagrees with the language's semantics at the solution")
             ELSE {})
 Compiled(r) == r.out \in {"solution", "solver_error"}
+\* A program the text language's static typing refuses (a number, a numeric variable or an arithmetic
+\* expression as a logic operand, a Boolean literal as a comparison side): the doors that run the type
+\* checker (P, S) refuse it; a door that does not may refuse it too, but whatever it compiles has the
+\* meaning the language gives it (non-zero is true), so a door that answers answers right
+IllTyped(ev) == "illtyped" \in DOMAIN ev /\ ev.illtyped
 Problems(ev) ==
+   IF IllTyped(ev) THEN
+      UNION {{Doors[i] \o ": " \o p : p \in Judge(ev, Res(ev, Doors[i]))} : i \in {j \in 1..Len(Doors) : Compiled(Res(ev, Doors[j]))}}
+      \cup ReadBackProblems(ev, ev.B) \cup {"N: " \o p : p \in ReadBackProblems(ev, ev.N)}
+   ELSE
    IF ~Compiled(ev.T) THEN
       \* the text door does not compile the program (not linear, division by a zero constant, ...):
       \* no door may produce a verdict for it
@@ -94,7 +103,8 @@ Problems(ev) ==
 
 Check(ev) ==
    LET pb == Problems(ev) IN
-   IF pb = {} /\ ~Compiled(ev.T) THEN PrintT(<<"STAT", ev.id, "rejected-by-all", 0, Len(ev.plan.calls), 0>>)
+   IF pb = {} /\ IllTyped(ev) THEN PrintT(<<"STAT", ev.id, "illtyped", 0, Len(ev.plan.calls), 0, Cardinality({j \in 1..Len(Doors) : Compiled(Res(ev, Doors[j]))})>>)
+   ELSE IF pb = {} /\ ~Compiled(ev.T) THEN PrintT(<<"STAT", ev.id, "rejected-by-all", 0, Len(ev.plan.calls), 0>>)
    ELSE IF pb = {} THEN PrintT(<<"STAT", ev.id, ev.B.out, IF ev.B.has_lm /\ ev.T.has_lm /\ SameTrees(ev.B.model, ev.T.model) THEN 1 ELSE 0, Len(ev.plan.calls),
                          IF ev.B.has_lm /\ ev.N.has_lm /\ SameTrees(ev.B.model, ev.N.model) THEN 1 ELSE 0>>)
    ELSE PrintT(<<"REJECT", "C16", ev.id, CHOOSE x \in pb : TRUE, ToJson(pb)>>)
